@@ -29,7 +29,9 @@ EXTENDS Integers, Sequences, FiniteSets, TLC, RenetObs
 
 CONSTANTS ChSC,      \* channels the server sends on (sequence of [id, kind, max, resend]), in priority order
           ChCS,      \* channels the client sends on
-          Budget     \* available_bytes_per_tick
+          Budget,    \* available_bytes_per_tick
+          SeqBase,   \* first packet sequence number of both endpoints (events carry numbers relative to it)
+          MidBase    \* first message id of every channel (events carry ids relative to it)
 
 SER_BUF == 1400     \* serialization buffer of get_packets_to_send
 ACKCAP  == 64
@@ -45,7 +47,7 @@ VarLen(v) == IF v <= 63 THEN 1 ELSE IF v <= 16383 THEN 2 ELSE IF v <= 1073741823
 RECURSIVE SumMsgs(_, _, _)
 SumMsgs(msgs, i, withId) ==
     IF i > Len(msgs) THEN 0
-    ELSE (IF withId THEN VarLen(msgs[i].mid) ELSE 0) + VarLen(msgs[i].len) + msgs[i].len + SumMsgs(msgs, i + 1, withId)
+    ELSE (IF withId THEN VarLen(msgs[i].mid + MidBase) ELSE 0) + VarLen(msgs[i].len) + msgs[i].len + SumMsgs(msgs, i + 1, withId)
 
 RECURSIVE SumRanges(_, _)
 \* ranges are <<lo, hi>> (hi exclusive), ascending; encoding walks them in reverse
@@ -56,14 +58,14 @@ SumRanges(rs, i) ==
          IN VarLen(gap) + VarLen(size) + SumRanges(rs, i - 1)
 
 PacketLen(p) ==
-    CASE p.kind = "SR" -> 1 + VarLen(p.seq) + 1 + 2 + SumMsgs(p.msgs, 1, TRUE)
-      [] p.kind = "SU" -> 1 + VarLen(p.seq) + 1 + 2 + SumMsgs(p.msgs, 1, FALSE)
+    CASE p.kind = "SR" -> 1 + VarLen(p.seq + SeqBase) + 1 + 2 + SumMsgs(p.msgs, 1, TRUE)
+      [] p.kind = "SU" -> 1 + VarLen(p.seq + SeqBase) + 1 + 2 + SumMsgs(p.msgs, 1, FALSE)
       [] p.kind \in {"RS", "US"} ->
-            1 + VarLen(p.seq) + 1 + VarLen(p.sl.mid) + VarLen(p.sl.idx) + VarLen(p.sl.n) + VarLen(p.sl.len) + p.sl.len
+            1 + VarLen(p.seq + SeqBase) + 1 + VarLen(p.sl.mid + MidBase) + VarLen(p.sl.idx) + VarLen(p.sl.n) + VarLen(p.sl.len) + p.sl.len
       [] p.kind = "ACK" ->
             LET n == Len(p.ranges)
                 last == p.ranges[n]
-            IN 1 + VarLen(p.seq) + VarLen(last[2] - 1) + VarLen((last[2] - 1) - last[1]) + VarLen(n - 1)
+            IN 1 + VarLen(p.seq + SeqBase) + VarLen(last[2] - 1 + SeqBase) + VarLen((last[2] - 1) - last[1]) + VarLen(n - 1)
                + SumRanges(p.ranges, n - 1)
 
 NoSl == [mid |-> 0, idx |-> 0, n |-> 0, len |-> 0, mcid |-> -1]
@@ -232,7 +234,7 @@ RelMsgs(a, ids, now, c) ==
          IN IF m.small THEN
                 IF a.avail < m.len THEN RelMsgs(a, Tail(ids), now, c)
                 ELSE IF m.last[0] # -1 /\ now - m.last[0] < c.resend THEN RelMsgs(a, Tail(ids), now, c)
-                ELSE LET ser == m.len + VarLen(m.len) + VarLen(mid)
+                ELSE LET ser == m.len + VarLen(m.len) + VarLen(mid + MidBase)
                          fl == a.sbytes + ser > SLICE
                          a1 == IF fl THEN [a EXCEPT !.pk = Append(@, MkSmall("SR", a.pseq, c.id, a.small)), !.small = <<>>,
                                                     !.sbytes = 0, !.pseq = @ + 1]
